@@ -3,7 +3,7 @@ from . import _tplm
 
 MANIFEST = {
     "text": "Lean 4 theorems C28_matchF_terminates / C28_match_terminates / C28_parse_terminates / C28_parseExpr_terminates / "
-            "C28_fuel_irrelevant: for every rule table that passes checkAll (transcription of the checks at the end of cl.NewEx: "
+            "C28_fuel_irrelevant, C28_check_never_fuel (the model of the compile-time check always answers ok / recursive variable): for every rule table that passes checkAll (transcription of the checks at the end of cl.NewEx: "
             "CheckConflicts of every choice, then First of every rule, both raising RecursiveError on left recursion) and has the shape "
             "compileExpr produces (no empty sequence, every referenced variable is a rule), every token list and every position, matchF "
             "(transcription of every Match method of tpl/matcher/match.go) returns within the explicit fuel matchBound = "
@@ -13,14 +13,16 @@ MANIFEST = {
             "hidden left recursion) of real tpl/cl compile result (ok / recursive variable X), real stops, and real Match/Parse/ParseExpr "
             "executed in a child process with wall-clock timeout and bounded stack, against the model run with matchBound fuel.",
     "note": "trusted: Lean kernel; hand-written model + differential tie; termination of the scanner is C15/C32's subject; "
-            "return procedures are assumed to terminate; the model's First uses fuel (|rules|+1)*(maxsize+1)+1 and reports FUEL distinctly (never observed).",
+            "return procedures are assumed to terminate.",
     "technique": "Lean 4 proof (well-founded measure made explicit as fuel) + differential correspondence + timeout oracle in a child process",
 }
 
 RULE = ("20 fixed adversarial grammars (doc = *?\"a\", a = a \"x\", left recursion hidden behind nullable prefixes / not reachable from a choice, "
         "*SPACE, *\"\", nested repetitions, nullable R1 % R2) + random grammars with 60% deliberately nullable repetition bodies and 35% "
         "sequences starting with a rule reference, 1-4 rules; 2 inputs each (derivations + edits); each match in a child process "
-        "(timeout 4 s, 48 MB stack); non-trivial = distinct (grammar, input) with >= 1 token")
+        "(3 s CPU budget, 48 MB stack); thorough adds an exhaustive enumeration of all 1745 single-rule grammars x, op x, x OP y, op(x OP y) over "
+        "atoms {\"a\", \"\", doc, ?\"a\", SPACE} against all 39 inputs of <= 3 words over {a, b}; "
+        "non-trivial = distinct (grammar, input) with >= 1 token")
 
 
 def run(ctx):
